@@ -2,7 +2,7 @@
 import json
 
 import vlib
-from props.common import role1, harness
+from props.common import role1, harness, diverse
 
 MUST_FAIL = {
     "C01": [("MC_Store_ascoded_collapse.cfg", "NewestWins")],
@@ -18,7 +18,7 @@ def gen(ctx, cfg, name, simulate=None, limit=None, seed=None):
     if simulate:
         kw.update(workers=1, simulate=simulate, depth=40, seed=seed)
     r = vlib.run_tlc(ctx.sc, "MC_Store", cfg, **kw)
-    lines = r.lines[:limit] if limit else r.lines
+    lines = diverse(r.lines, limit, seed=seed or 1) if simulate else r.lines
     p = ctx.sc.path(name)
     with open(p, "w") as f:
         for v in lines:
